@@ -5,6 +5,8 @@
 From Coq Require Import NArith List.
 From ACPI Require Import Lib.Bytes Lib.Sx Lib.Machine Impl.Fields Impl.Fadt Spec.Layout Spec.FadtS Proofs.FlagsP Proofs.FixedP Proofs.RefFixedCommonP Proofs.FadtRefP.
 From ACPI Require Import Impl.Table Impl.Cedt Spec.CedtS Proofs.CedtRefP.
+From ACPI Require Import Impl.Madt Impl.Srat Impl.Pptt Impl.Tpm2 Impl.Hmat Impl.Hest Impl.Rimt Spec.OptionsS Proofs.FadtP Proofs.FixedP
+  Proofs.C11CommonP Proofs.C11MadtP Proofs.C11SratP Proofs.C11PpttP Proofs.C11Tpm2P Proofs.C11HmatP Proofs.C11HestP Proofs.C11RimtP.
 Import ListNotations.
 Open Scope N_scope.
 
@@ -57,6 +59,282 @@ Theorem c11_cedt_window_restrictions :
     exists e, cedt_addition s o = Some e /\ a_bytes e = r /\ field_at (a_bytes e) 32 2 = cedt_restrictions builders.
 Proof. exact cfmws_refined_restrictions. Qed.
 
+
+(* ====================================================================================================================
+   Explicit per-structure instances (Proofs/C11<Struct>P.v).  Each is about the BYTES the Impl model emits (`a_bytes` of the
+   addition / the table image), read with `field_at` at the SPECIFICATION offset and width (Spec/OptionsS.v, transcribed
+   from SPEC_NOTES.md), for EVERY sequence of builder calls the model accepts: any order, any repetition, interleaved with
+   the value setters.  `big_or (map bit calls)` is the union of the specification bits of the calls made; by
+   c11_calls_order_irrelevant it depends only on WHICH calls were made.  `in_ranges k rs`: byte position k lies in one of the
+   byte ranges rs.  Each instance is followed by a non-vacuity Example (a concrete accepted call sequence, evaluated). *)
+
+Theorem c11_calls_order_irrelevant :
+  forall (bit : sx -> N) l1 l2, (forall x, In x l1 <-> In x l2) -> big_or (map bit l1) = big_or (map bit l2).
+Proof. exact (@big_or_map_same_set sx). Qed.
+
+(* the generic law behind the field-list instances, on bytes *)
+Theorem c11_flag_bytes :
+  forall (st : flds -> sx -> option flds) (WS : list nat) (i : nat) (Inv : flds -> Prop) (bit : sx -> N) (ranges : sx -> list (nat * nat)),
+    (i < length WS)%nat -> (forall o, bit o < 2 ^ (8 * N.of_nat (fwid WS i))) ->
+    (forall f o f', widths f = WS -> Inv f -> st f o = Some f' ->
+        widths f' = WS /\ Inv f' /\ fget f' i = N.lor (fget f i) (bit o) /\
+        forall j, j <> i -> ~ In (fld_range WS j) (ranges o) -> fget f' j = fget f j) ->
+    forall ops f f', widths f = WS -> Inv f -> fget f i < 2 ^ (8 * N.of_nat (fwid WS i)) -> fold_opt st f ops = Some f' ->
+      length (ser_flds f') = wsum WS /\
+      field_at (ser_flds f') (foff WS i) (fwid WS i) = N.lor (fget f i) (big_or (map bit ops)) /\
+      forall k, ~ in_ranges k (fld_range WS i :: concat (map ranges ops)) -> nth k (ser_flds f') 0 = nth k (ser_flds f) 0.
+Proof. exact flag_bytes. Qed.
+
+Definition c11_hdr : hdr := {| h_sig := [65; 80; 73; 67]; h_rev := 1; h_oem := repeatN 0 6; h_tbl := repeatN 0 8; h_orev := 0 |}.
+Definition c11_tbl (k : tkind) : tbl := tbl_new k c11_hdr [].
+Definition c11_show (a : option addition) (off w : nat) : option (N * nat) :=
+  option_map (fun e => (field_at (a_bytes e) off w, length (a_bytes e))) a.
+
+(* ---- MADT GICC: Flags dword (offset 12) = status bits | edge-trigger options invoked; frame against Gicc::new(Disabled) ---- *)
+Theorem c11_madt_gicc :
+  forall s status st e, madt_addition s (SL [SA 3; SA status; SL st]) = Some e ->
+    length (a_bytes e) = 82%nat /\
+    field_at (a_bytes e) 12 4 = N.lor (gicc_status_bits status) (big_or (map gicc_call_bit st)) /\
+    forall k, ~ in_ranges k (gicc_flags_at :: concat (map gicc_call_ranges st)) -> nth k (a_bytes e) 0 = nth k GICC_BLANK 0.
+Proof. exact madt_gicc_options. Qed.
+Example c11_madt_gicc_nonvacuous :
+  c11_show (madt_addition (c11_tbl KMadt)
+      (SL [SA 3; SA 2; SL [SL [SA 13; SA 7; SA 1]; SL [SA 2; SA 9]; SL [SA 14; SA 5; SA 1]; SL [SA 13; SA 8; SA 0]; SL [SA 14; SA 6; SA 1]]])) 12 4
+  = Some (14, 82%nat) /\ distinct_single_bits gicc_option_table = true.
+Proof. split; vm_compute; reflexivity. Qed.
+
+(* ---- MADT GIC MSI frame: Flags dword (offset 16) = 1 iff spi_count_and_base was called ---- *)
+Theorem c11_madt_gicmsi :
+  forall s st e, madt_addition s (SL [SA 5; SL st]) = Some e ->
+    length (a_bytes e) = 24%nat /\
+    field_at (a_bytes e) 16 4 = big_or (map gicmsi_call_bit st) /\
+    field_at (a_bytes e) 16 4 = (if existsb gicmsi_supplies_spi st then 1 else 0) /\
+    forall k, ~ in_ranges k (gicmsi_flags_at :: concat (map gicmsi_call_ranges st)) -> nth k (a_bytes e) 0 = nth k GICMSI_BLANK 0.
+Proof. exact madt_gicmsi_options. Qed.
+Example c11_madt_gicmsi_nonvacuous :
+  c11_show (madt_addition (c11_tbl KMadt) (SL [SA 5; SL [SL [SA 1; SA 3]; SL [SA 3; SA 32; SA 64]; SL [SA 2; SA 4096]; SL [SA 3; SA 8; SA 96]]])) 16 4 = Some (1, 24%nat) /\
+  c11_show (madt_addition (c11_tbl KMadt) (SL [SA 5; SL [SL [SA 1; SA 3]; SL [SA 2; SA 4096]]])) 16 4 = Some (0, 24%nat).
+Proof. split; vm_compute; reflexivity. Qed.
+
+(* ---- MADT local APIC / RINTC: the enable state (constructor argument) is the Flags dword (offset 4) and nothing else ---- *)
+Theorem c11_madt_lapic_enable :
+  forall s uid id en e, madt_addition s (SL [SA 1; SA uid; SA id; SA en]) = Some e ->
+    length (a_bytes e) = 8%nat /\ field_at (a_bytes e) 4 4 = en mod 2 ^ 32 /\
+    (en < 3 -> field_at (a_bytes e) 4 4 = enable_state_bits en) /\
+    forall k, ~ in_range k lapic_flags_at -> nth k (a_bytes e) 0 = nth k (ser_flds (local_apic uid id 0)) 0.
+Proof. exact madt_lapic_enable. Qed.
+Theorem c11_madt_rintc_enable :
+  forall s st hart uid ext ib isz e, madt_addition s (SL [SA 8; SA st; SA hart; SA uid; SA ext; SA ib; SA isz]) = Some e ->
+    length (a_bytes e) = 36%nat /\ field_at (a_bytes e) 4 4 = st mod 2 ^ 32 /\
+    (st < 3 -> field_at (a_bytes e) 4 4 = enable_state_bits st) /\
+    forall k, ~ in_range k rintc_flags_at -> nth k (a_bytes e) 0 = nth k (ser_flds (rintc 0 hart uid ext ib isz)) 0.
+Proof. exact madt_rintc_enable. Qed.
+Example c11_madt_enable_nonvacuous :
+  c11_show (madt_addition (c11_tbl KMadt) (SL [SA 1; SA 3; SA 4; SA 2])) 4 4 = Some (2, 8%nat) /\
+  c11_show (madt_addition (c11_tbl KMadt) (SL [SA 8; SA 1; SA 5; SA 6; SA 7; SA 8; SA 9])) 4 4 = Some (1, 36%nat).
+Proof. split; vm_compute; reflexivity. Qed.
+
+(* ---- SRAT memory affinity / generic initiator / RINTC affinity ---- *)
+Theorem c11_srat_memaff :
+  forall s pd base len bs e, srat_addition s (SL [SA 1; SA pd; SA base; SA len; SL bs]) = Some e ->
+    length (a_bytes e) = 40%nat /\
+    field_at (a_bytes e) 28 4 = big_or (map memaff_call_bit bs) /\
+    forall k, ~ in_range k memaff_flags_at -> nth k (a_bytes e) 0 = nth k (memaff_bytes (memaff_new pd base len)) 0.
+Proof. exact srat_memaff_options. Qed.
+Theorem c11_srat_geninit :
+  forall s pd h bs e, srat_addition s (SL [SA 2; SA pd; h; SL bs]) = Some e ->
+    exists hd, sx_handle h = Some hd /\ length (a_bytes e) = 32%nat /\
+      field_at (a_bytes e) 24 4 = big_or (map geninit_call_bit bs) /\
+      forall k, ~ in_range k geninit_flags_at ->
+        nth k (a_bytes e) 0 = nth k (geninit_bytes {| gi_pd := pd; gi_handle := hd; gi_flags := 0 |}) 0.
+Proof. exact srat_geninit_options. Qed.
+Theorem c11_srat_rintc_affinity :
+  forall s uid clock bs e, srat_addition s (SL [SA 3; uid; SA clock; SL bs]) = Some e ->
+    exists u, sx_arr 4 uid = Some u /\ length (a_bytes e) = 20%nat /\
+      field_at (a_bytes e) 12 4 = big_or (map rintc_aff_call_bit bs) /\
+      field_at (a_bytes e) 12 4 = (if existsb rintc_aff_enables bs then 1 else 0) /\
+      forall k, ~ in_ranges k (rintc_aff_flags_at :: concat (map rintc_aff_call_ranges bs)) ->
+        nth k (a_bytes e) 0 = nth k (ser_flds (rintc_aff_new u clock)) 0.
+Proof. exact srat_rintc_affinity_options. Qed.
+Example c11_srat_nonvacuous :
+  c11_show (srat_addition (c11_tbl KSrat) (SL [SA 1; SA 1; SA 4096; SA 8192; SL [SL [SA 3]; SL [SA 1]; SL [SA 3]]])) 28 4 = Some (5, 40%nat) /\
+  c11_show (srat_addition (c11_tbl KSrat) (SL [SA 2; SA 1; SL [SA 1; SA 0; SA 1; SA 2; SA 3]; SL [SL [SA 2]; SL [SA 2]]])) 24 4 = Some (2, 32%nat) /\
+  c11_show (srat_addition (c11_tbl KSrat) (SL [SA 3; SL [SA 1; SA 2; SA 3; SA 4]; SA 9; SL [SL [SA 2; SA 5]; SL [SA 1]; SL [SA 2; SA 6]]])) 12 4 = Some (1, 20%nat) /\
+  distinct_single_bits memaff_option_table && distinct_single_bits geninit_option_table = true.
+Proof. repeat split; vm_compute; reflexivity. Qed.
+
+(* ---- PPTT processor hierarchy node (5 flag options + add_cache + pub-field assignments) ---- *)
+Theorem c11_pptt_pnode :
+  forall s parent uid bs e, pptt_addition s (SL [SA 1; parent; SA uid; SL bs]) = Some e ->
+    field_at (a_bytes e) 4 4 = fold_left pnode_flags_after bs 0 mod 2 ^ 32 /\
+    (forallb (fun o => negb (pnode_assigns_flags o)) bs = true -> field_at (a_bytes e) 4 4 = big_or (map pnode_call_bit bs)) /\
+    exists e0, pptt_addition s (SL [SA 1; parent; SA uid; SL (filter pnode_nonoption bs)]) = Some e0 /\
+      length (a_bytes e) = length (a_bytes e0) /\
+      forall k, ~ in_range k pnode_flags_at -> nth k (a_bytes e) 0 = nth k (a_bytes e0) 0.
+Proof. exact pptt_pnode_options. Qed.
+(* a direct assignment node.flags = v replaces the word; options invoked afterwards are united with v *)
+Theorem c11_pptt_pnode_after_assignment :
+  forall pre v post a, forallb (fun o => negb (pnode_assigns_flags o)) post = true ->
+    fold_left pnode_flags_after (pre ++ SL [SA 7; SA v] :: post) a = N.lor v (big_or (map pnode_call_bit post)).
+Proof. exact pnode_flags_after_assign. Qed.
+Example c11_pptt_pnode_nonvacuous :
+  c11_show (pptt_addition (c11_tbl KPptt) (SL [SA 1; SL []; SA 7; SL [SL [SA 4]; SL [SA 6; SA 36]; SL [SA 2]; SL [SA 9; SA 3]; SL [SA 4]; SL [SA 5]]])) 4 4
+    = Some (26, 24%nat) /\
+  c11_show (pptt_addition (c11_tbl KPptt) (SL [SA 1; SL []; SA 7; SL [SL [SA 1]; SL [SA 7; SA 64]; SL [SA 3]]])) 4 4 = Some (68, 20%nat) /\
+  distinct_single_bits pnode_option_table = true.
+Proof. repeat split; vm_compute; reflexivity. Qed.
+
+(* ---- PPTT cache type structure: 8 valid bits gate the value setters; attribute sub-fields ---- *)
+Theorem c11_pptt_cache :
+  forall s st e, pptt_addition s (SL [SA 2; SL st]) = Some e ->
+    length (a_bytes e) = 28%nat /\
+    field_at (a_bytes e) 4 4 = big_or (map cache_valid_bit st) /\
+    (forall k, In k [1; 2; 3; 4; 5; 6; 7; 8] -> N.testbit (field_at (a_bytes e) 4 4) (k - 1) = existsb (cache_supplies k) st) /\
+    field_at (a_bytes e) 21 1 = big_or (map cache_attr_bits st) /\
+    forall k, ~ in_ranges k (cache_flags_at :: concat (map cache_call_ranges st)) -> nth k (a_bytes e) 0 = nth k CACHE_BLANK 0.
+Proof. exact pptt_cache_options. Qed.
+Example c11_pptt_cache_nonvacuous :
+  c11_show (pptt_addition (c11_tbl KPptt)
+      (SL [SA 2; SL [SL [SA 7; SA 64]; SL [SA 5; SA 2]; SL [SA 1; SA 32768]; SL [SA 6; SA 1]; SL [SA 9; SA 36]; SL [SA 7; SA 128]; SL [SA 4; SA 1]]])) 4 4
+    = Some (1 + 8 + 16 + 32 + 64, 28%nat) /\
+  c11_show (pptt_addition (c11_tbl KPptt)
+      (SL [SA 2; SL [SL [SA 7; SA 64]; SL [SA 5; SA 2]; SL [SA 1; SA 32768]; SL [SA 6; SA 1]; SL [SA 9; SA 36]; SL [SA 7; SA 128]; SL [SA 4; SA 1]]])) 21 1
+    = Some (1 + 8 + 16, 28%nat) /\
+  distinct_single_bits cache_valid_table = true.
+Proof. repeat split; vm_compute; reflexivity. Qed.
+
+(* ---- TCPA server table: device flags (offset 58) / interrupt flags (offset 59), valid bits gate their value setters ---- *)
+Theorem c11_tcpa_server :
+  forall md c ops s0 s, tpmserver_new c = Some s0 -> run_steps (tpmserver_step md) s0 ops = Some s ->
+    length (tpmserver_bytes s) = 100%nat /\
+    field_at (tpmserver_bytes s) 58 1 = big_or (map tcpa_dev_bit ops) /\
+    field_at (tpmserver_bytes s) 59 1 = big_or (map tcpa_int_bit ops) /\
+    (forall k b, In (k, b) [(7, 0); (6, 1); (9, 2)] -> N.testbit (field_at (tpmserver_bytes s) 58 1) b = existsb (tcpa_calls k) ops) /\
+    (forall k b, In (k, b) [(3, 0); (2, 1); (4, 2); (5, 3)] -> N.testbit (field_at (tpmserver_bytes s) 59 1) b = existsb (tcpa_calls k) ops) /\
+    forall k, ~ in_ranges k (tcpa_checksum_at :: tcpa_devflags_at :: tcpa_intflags_at :: concat (map tcpa_call_ranges ops)) ->
+      nth k (tpmserver_bytes s) 0 = nth k (tpmserver_bytes s0) 0.
+Proof. exact tcpa_server_options. Qed.
+Example c11_tcpa_server_nonvacuous :
+  match tpmserver_new (SL [SL (map SA (repeatN 65 6)); SL (map SA (repeatN 66 8)); SA 1]) with
+  | Some s0 => option_map (fun s => (field_at (tpmserver_bytes s) 58 1, field_at (tpmserver_bytes s) 59 1))
+                 (run_steps (tpmserver_step Checked) s0
+                    [SL [SA 5; SA 33]; SL [SA 6]; SL [SA 3]; SL [SA 9; SA 0; SA 32; SA 0; SA 3; SA 4096]; SL [SA 5; SA 34]; SL [SA 6]])
+  | None => None
+  end = Some (6, 9).
+Proof. vm_compute. reflexivity. Qed.
+
+(* ---- HMAT system locality (Flags byte, offset 8) and memory proximity domain (Flags word, offset 8) ---- *)
+Theorem c11_hmat_sysloc :
+  forall md s lt dt mts unit ni nt bs e,
+    hmat_addition md s (SL [SA 2; SA lt; SA dt; SA mts; SA unit; SA ni; SA nt; SL bs]) = Some e ->
+    field_at (a_bytes e) 8 1 = N.lor (lt mod 256) (big_or (map sysloc_call_bit bs)) /\
+    (lt < 16 -> field_at (a_bytes e) 8 1 mod 16 = lt /\
+                forall k b, In (k, b) [(1, 5); (2, 4)] -> N.testbit (field_at (a_bytes e) 8 1) b = existsb (sysloc_calls k) bs) /\
+    exists e0, hmat_addition md s (SL [SA 2; SA lt; SA dt; SA mts; SA unit; SA ni; SA nt; SL (filter sysloc_nonoption bs)]) = Some e0 /\
+      length (a_bytes e) = length (a_bytes e0) /\
+      forall k, ~ in_range k sysloc_flags_at -> nth k (a_bytes e) 0 = nth k (a_bytes e0) 0.
+Proof. exact hmat_sysloc_options. Qed.
+Theorem c11_hmat_memprox :
+  forall md s ipd mpd e, hmat_addition md s (SL [SA 1; SA ipd; SA mpd]) = Some e ->
+    length (a_bytes e) = 40%nat /\ field_at (a_bytes e) 8 2 = 1 /\ field_at (a_bytes e) 12 4 = ipd mod 2 ^ 32.
+Proof. exact hmat_memprox_flags. Qed.
+Example c11_hmat_nonvacuous :
+  c11_show (hmat_addition Checked (c11_tbl KHmat)
+     (SL [SA 2; SA 2; SA 1; SA 0; SA 100; SA 2; SA 2; SL [SL [SA 1]; SL [SA 5; SA 1; SA 0; SA 7]; SL [SA 3; SA 0; SA 4]; SL [SA 1]]])) 8 1 = Some (34, 56%nat) /\
+  c11_show (hmat_addition Checked (c11_tbl KHmat)
+     (SL [SA 2; SA 3; SA 1; SA 0; SA 100; SA 1; SA 1; SL [SL [SA 2]; SL [SA 1]; SL [SA 2]]])) 8 1 = Some (51, 42%nat) /\
+  c11_show (hmat_addition Checked (c11_tbl KHmat) (SL [SA 1; SA 3; SA 4])) 8 2 = Some (1, 40%nat).
+Proof. repeat split; vm_compute; reflexivity. Qed.
+
+(* ---- HEST PCIe AER sources: Flags byte (offset 6) = the constructor's option, whatever setters follow ---- *)
+Theorem c11_hest_aer :
+  forall s k c st e, In k [1; 2; 3] -> hest_addition s (SL [SA k; c; SL st]) = Some e ->
+    exists f0, aer_new (aer_type k) c = Some f0 /\
+      length (a_bytes e) = aer_size (aer_type k) /\
+      field_at (a_bytes e) 6 1 = aer_ctor_flags c mod 2 ^ 8 /\
+      forall b, ~ in_ranges b (aer_flags_at :: concat (map aer_call_ranges st)) -> nth b (a_bytes e) 0 = nth b (ser_flds f0) 0.
+Proof. exact hest_aer_options. Qed.
+Theorem c11_hest_aer_ctor_frame :
+  forall ty ff bus dev fn f, aer_new ty (SL [SA 1; SA ff; SA bus; SA dev; SA fn]) = Some f ->
+    exists f0, aer_new ty (SL [SA 1; SA 0; SA bus; SA dev; SA fn]) = Some f0 /\
+      forall b, ~ in_range b aer_flags_at -> nth b (ser_flds f) 0 = nth b (ser_flds f0) 0.
+Proof. exact hest_aer_ctor_frame. Qed.
+Example c11_hest_aer_nonvacuous :
+  c11_show (hest_addition (c11_tbl KHest) (SL [SA 1; SL [SA 0]; SL [SL [SA 1; SA 5]; SL [SA 8; SA 9]]])) 6 1 = Some (2, 48%nat) /\
+  c11_show (hest_addition (c11_tbl KHest) (SL [SA 3; SL [SA 1; SA 1; SA 2; SA 3; SA 4]; SL [SL [SA 10; SA 5]; SL [SA 4; SA 9]]])) 6 1 = Some (1, 56%nat) /\
+  c11_show (hest_addition (c11_tbl KHest) (SL [SA 2; SL [SA 1; SA 0; SA 2; SA 3; SA 4]; SL []])) 6 1 = Some (0, 44%nat).
+Proof. repeat split; vm_compute; reflexivity. Qed.
+
+(* ---- RIMT: the options are constructor arguments ---- *)
+Theorem c11_rimt_iommu :
+  forall s id base pci prox wires e, rimt_addition s (SL [SA 1; SA id; base; pci; prox; wires]) = Some e ->
+    field_at (a_bytes e) 16 4 = iommu_flags_ref pci prox /\
+    (N.testbit (field_at (a_bytes e) 16 4) 0 = opt_given pci) /\
+    (N.testbit (field_at (a_bytes e) 16 4) 1 = opt_given prox) /\
+    (opt_given pci = false -> field_at (a_bytes e) 20 2 = 0 /\ field_at (a_bytes e) 22 2 = 0) /\
+    (opt_given prox = false -> field_at (a_bytes e) 24 4 = 0) /\
+    exists e0, rimt_addition s (SL [SA 1; SA id; base; SL []; SL []; wires]) = Some e0 /\
+      length (a_bytes e) = length (a_bytes e0) /\
+      forall k, ~ in_ranges k (iommu_flags_at :: iommu_prox_at :: iommu_pci_at) -> nth k (a_bytes e) 0 = nth k (a_bytes e0) 0.
+Proof. exact rimt_iommu_options. Qed.
+Theorem c11_rimt_wire :
+  forall num lvl pol aplic b, wire_bytes (SL [SA num; SA lvl; SA pol; SA aplic]) = Some b ->
+    length b = 8%nat /\ field_at b 4 2 = wire_flags_ref lvl pol /\
+    forall k, ~ in_range k wire_flags_at -> nth k b 0 = nth k (d4 num ++ w2 0 ++ w2 aplic) 0.
+Proof. exact rimt_wire_flags. Qed.
+Theorem c11_rimt_iommu_wire :
+  forall s id base pci prox ws e i num lvl pol aplic,
+    rimt_addition s (SL [SA 1; SA id; base; pci; prox; SL [SL ws]]) = Some e ->
+    nth_error ws i = Some (SL [SA num; SA lvl; SA pol; SA aplic]) ->
+    field_at (a_bytes e) (32 + 8 * i + 4) 2 = wire_flags_ref lvl pol.
+Proof. exact rimt_iommu_wire_flags. Qed.
+Theorem c11_rimt_idmap :
+  forall s src dst num href ats pri rciep b,
+    idmap_bytes s (SL [SA src; SA dst; SA num; href; SA ats; SA pri; SA rciep]) = Some b ->
+    length b = 20%nat /\ field_at b 16 4 = idmap_flags_ref ats pri rciep /\
+    exists b0, idmap_bytes s (SL [SA src; SA dst; SA num; href; SA 0; SA 0; SA 0]) = Some b0 /\
+      forall k, ~ in_range k idmap_flags_at -> nth k b 0 = nth k b0 0.
+Proof. exact rimt_idmap_flags. Qed.
+Theorem c11_rimt_pcierc :
+  forall s id seg ats pri maps e, rimt_addition s (SL [SA 2; SA id; SA seg; SA ats; SA pri; maps]) = Some e ->
+    field_at (a_bytes e) 8 4 = pcierc_flags_ref ats pri /\
+    exists e0, rimt_addition s (SL [SA 2; SA id; SA seg; SA 0; SA 0; maps]) = Some e0 /\
+      length (a_bytes e) = length (a_bytes e0) /\
+      forall k, ~ in_range k pcierc_flags_at -> nth k (a_bytes e) 0 = nth k (a_bytes e0) 0.
+Proof. exact rimt_pcierc_options. Qed.
+Theorem c11_rimt_pcierc_idmap :
+  forall s id seg ats pri ms e i src dst num href a p r,
+    rimt_addition s (SL [SA 2; SA id; SA seg; SA ats; SA pri; SL [SL ms]]) = Some e ->
+    nth_error ms i = Some (SL [SA src; SA dst; SA num; href; SA a; SA p; SA r]) ->
+    field_at (a_bytes e) (16 + 20 * i + 16) 4 = idmap_flags_ref a p r.
+Proof. exact rimt_pcierc_idmap_flags. Qed.
+Theorem c11_rimt_platform_idmap :
+  forall s id name nm ms e i src dst num href a p r,
+    rimt_addition s (SL [SA 3; SA id; name; SL [SL ms]]) = Some e -> sx_bytes name = Some nm ->
+    nth_error ms i = Some (SL [SA src; SA dst; SA num; href; SA a; SA p; SA r]) ->
+    field_at (a_bytes e) (12 + length nm + 1 + 20 * i + 16) 4 = idmap_flags_ref a p r.
+Proof. exact rimt_platform_idmap_flags. Qed.
+Example c11_rimt_nonvacuous :
+  c11_show (rimt_addition (c11_tbl KRimt)
+      (SL [SA 1; SA 7; SL [SA 4096]; SL [SL [SA 1; SA 2; SA 3; SA 4]]; SL []; SL [SL [SL [SA 9; SA 1; SA 0; SA 5]; SL [SA 10; SA 0; SA 1; SA 5]]]])) 16 4
+    = Some (1, 48%nat) /\
+  c11_show (rimt_addition (c11_tbl KRimt)
+      (SL [SA 1; SA 7; SL [SA 4096]; SL [SL [SA 1; SA 2; SA 3; SA 4]]; SL []; SL [SL [SL [SA 9; SA 1; SA 0; SA 5]; SL [SA 10; SA 0; SA 1; SA 5]]]])) 44 2
+    = Some (2, 48%nat) /\
+  c11_show (rimt_addition (c11_tbl KRimt) (SL [SA 1; SA 7; SL []; SL []; SL [SA 3]; SL []])) 16 4 = Some (2, 32%nat) /\
+  c11_show (rimt_addition (c11_tbl KRimt) (SL [SA 2; SA 1; SA 0; SA 0; SA 1; SL [SL [SL [SA 0; SA 0; SA 16; SA 48; SA 1; SA 0; SA 1]]]])) 8 4 = Some (2, 36%nat) /\
+  c11_show (rimt_addition (c11_tbl KRimt) (SL [SA 2; SA 1; SA 0; SA 0; SA 1; SL [SL [SL [SA 0; SA 0; SA 16; SA 48; SA 1; SA 0; SA 1]]]])) 32 4 = Some (5, 36%nat).
+Proof. repeat split; vm_compute; reflexivity. Qed.
+
+(* ---- distinctness: in every option table the options own different single bits of their field (finite check) ---- *)
+Theorem c11_option_tables_distinct :
+  forallb distinct_single_bits
+    ([gicc_option_table; enable_state_table; memaff_option_table; geninit_option_table; pnode_option_table; cache_valid_table;
+      tcpa_dev_table; tcpa_int_table; sysloc_option_table; aer_option_table] ++ rimt_option_tables) = true /\
+  map cache_alloc_field [0; 1; 2] = [0; 1; 2] /\ map cache_type_field [0; 1; 2] = [0; 4; 8] /\ map cache_policy_field [0; 1] = [0; 16] /\
+  map gicc_status_bits [0; 1; 2] = [0; 1; 8] /\ map enable_state_bits [0; 1; 2] = [0; 1; 2].
+Proof. repeat split; vm_compute; reflexivity. Qed.
+
 Print Assumptions c11_union_and_frame.
 Print Assumptions c11_order_and_repetition_irrelevant.
 Print Assumptions c11_bit_set_iff_invoked.
@@ -64,3 +342,28 @@ Print Assumptions c11_setter_frame.
 Print Assumptions c11_image_from_fields.
 Print Assumptions c11_fadt_flags.
 Print Assumptions c11_cedt_window_restrictions.
+Print Assumptions c11_calls_order_irrelevant.
+Print Assumptions c11_flag_bytes.
+Print Assumptions c11_madt_gicc.
+Print Assumptions c11_madt_gicmsi.
+Print Assumptions c11_madt_lapic_enable.
+Print Assumptions c11_madt_rintc_enable.
+Print Assumptions c11_srat_memaff.
+Print Assumptions c11_srat_geninit.
+Print Assumptions c11_srat_rintc_affinity.
+Print Assumptions c11_pptt_pnode.
+Print Assumptions c11_pptt_pnode_after_assignment.
+Print Assumptions c11_pptt_cache.
+Print Assumptions c11_tcpa_server.
+Print Assumptions c11_hmat_sysloc.
+Print Assumptions c11_hmat_memprox.
+Print Assumptions c11_hest_aer.
+Print Assumptions c11_hest_aer_ctor_frame.
+Print Assumptions c11_rimt_iommu.
+Print Assumptions c11_rimt_wire.
+Print Assumptions c11_rimt_iommu_wire.
+Print Assumptions c11_rimt_idmap.
+Print Assumptions c11_rimt_pcierc.
+Print Assumptions c11_rimt_pcierc_idmap.
+Print Assumptions c11_rimt_platform_idmap.
+Print Assumptions c11_option_tables_distinct.
